@@ -22,6 +22,8 @@ func init() {
 const lruPkg = "github.com/hashicorp/golang-lru"
 
 func runC11(c *eng.Ctx) {
+	c.Rule("R16.8", "K5")
+	ruleStreamKeepsTheConfigItWasHanded(c)
 	p := c.P
 	// ---- R11.1
 	c.Rule("R11.1", "K1")
